@@ -111,7 +111,8 @@ KeepChoices(mode, a, p, cur, mu, n, var) ==
         edge == { w \in cur : p[a][w] # 0 /\ InsideEq(p[a][w], mu, n, var) }
         \* windows with the SAME peak get the same floating-point verdict at a bound: the open choice is per peak value, not per window
         groups == { { w \in edge : p[a][w] = v } : v \in { p[a][w] : w \in edge } }
-    IN  IF mode = "P" THEN { sure \cup UNION G : G \in SUBSET groups } ELSE {sure \cup edge}
+        \* (ZeroExact and a zero variance: the bounds ARE the mean and every peak IS the mean, exactly - a peak on the bound is not outside it)
+    IN  IF mode = "P" /\ ~(ZeroExact /\ RIsZero(var)) THEN { sure \cup UNION G : G \in SUBSET groups } ELSE {sure \cup edge}
 
 \* decision of one iteration for a given pair of mean-curve peaks: the set of possible verdicts
 \* ("stop" = return now, "cont" = iterate again)
